@@ -94,7 +94,7 @@ def gen_c08_base(rng: random.Random) -> dict:
 class C08(CheckBase):
     pid = "C08"
     level = "fault_enumeration"
-    quick_cases = 64
+    quick_cases = 96
     thorough_cases = 960
 
     def cases(self, rng: random.Random, tier: str, idx: int) -> Iterable[dict]:
